@@ -217,13 +217,19 @@ main (int argc, char **argv)
 	vt_int ("sx", sx); vt_int ("sy", sy); vt_int ("dx", dx); vt_int ("dy", dy); vt_int ("w", w); vt_int ("h", h);
 	vt_end ();
 
-	if (skind == 1)
+	if (skind == 1 || skind == 5)
 	{
-	    /* solid colour: the constant content colour, alpha 1 */
+	    /* 1: solid colour: the constant content colour, alpha 1
+	     * 5: a solid whose 16-bit alpha is NOT 0xffff (almost opaque ... translucent): never opaque */
+	    static const uint16_t almost[] = { 0xfffe, 0xff80, 0xff00, 0xfeff, 0x8000, 0x00ff };
 	    vrng_t rng; uint32_t c; pixman_color_t col;
 	    vrng_seed (&rng, seed);
 	    c = content_pixel (&rng, quant, 0);
-	    col.alpha = 0xffff; col.red = ((c >> 16) & 0xff) * 0x101; col.green = ((c >> 8) & 0xff) * 0x101; col.blue = (c & 0xff) * 0x101;
+	    col.alpha = skind == 1 ? 0xffff : almost[seed % 6];
+	    col.red = ((c >> 16) & 0xff) * 0x101; col.green = ((c >> 8) & 0xff) * 0x101; col.blue = (c & 0xff) * 0x101;
+	    if (col.red > col.alpha) col.red = col.alpha;
+	    if (col.green > col.alpha) col.green = col.alpha;
+	    if (col.blue > col.alpha) col.blue = col.alpha;
 	    src = pixman_image_create_solid_fill (&col);
 	}
 	else
@@ -266,9 +272,13 @@ main (int argc, char **argv)
 	    if (mkind == 3)
 		pixman_image_set_component_alpha (mask, 1);
 	}
-	else if (mkind == 2)
+	else if (mkind == 2 || mkind == 5)
 	{
+	    /* 2: solid white, alpha 1; 5: a solid mask whose 16-bit alpha is just below 1 (never opaque) */
+	    static const uint16_t almost[] = { 0xfffe, 0xff80, 0xff00, 0xfeff };
 	    pixman_color_t white = { 0xffff, 0xffff, 0xffff, 0xffff };
+	    if (mkind == 5)
+		white.alpha = almost[seed % 4];
 	    mask = pixman_image_create_solid_fill (&white);
 	}
 	/* destination: opaque varying content (alpha 255 where the format has alpha) */
